@@ -2,7 +2,6 @@ package props
 
 import (
 	"fmt"
-	"go/token"
 	"strings"
 
 	"golang.org/x/tools/go/ssa"
@@ -10,20 +9,27 @@ import (
 	"sidecheck/core"
 )
 
-// checkCopyAliasing (C18, termination): the JSON-patch engine pinned by the
-// module implements `copy` by storing at the destination the very node it got
-// from the source (derived from the engine's source: the value passed to
-// container.set is the result of container.get, no deep copy in between). Two
-// locations of the document then share a node, and a later write through one of
-// them — or a copy whose destination lies inside its source — makes the
-// document contain itself; serializing it recurses without bound (fatal stack
-// overflow, not recoverable). Under that premise the subject must
-//   (single)     hand the engine one operation per Apply call, each on the
-//                re-serialized result of the previous one, so that sharing never
-//                spans operations, and
-//   (descendant) reach Apply only after a check on that operation that rejects a
-//                copy whose path lies inside its from.
-// When the engine deep-copies (a newer release) both obligations are vacuous.
+// checkCopyAliasing (C18, termination and no-panic at the engine boundary).
+//
+// Premise A (derived from the engine's source on every run): the JSON-patch
+// engine pinned by the module implements `copy` by storing at the destination
+// the very node it got from the source (the value passed to container.set is
+// the result of container.get, no deep copy in between). Two locations then
+// share a node; a copy whose destination lies inside its source — however the
+// two pointers are spelled: "/arr/0" vs "/arr/00", "/a~0" vs "/a~" — makes the
+// document contain itself, and serializing it recurses without bound (fatal
+// stack overflow, not recoverable). No textual comparison of the two pointers
+// in the subject can mirror the engine's token semantics reliably, so under
+// premise A the obligation is: **no `copy` operation reaches the engine** —
+// every Apply call is dominated by a loop over the patch it applies whose every
+// completing iteration established kind(op) ≠ "copy".
+//
+// Premise B (derived likewise): the engine indexes arrays with the result of
+// strconv.Atoi after testing only the upper bound (a negative index panics).
+// Under premise B every Apply call must sit in a function that recovers and
+// turns the panic into its error result.
+//
+// When a premise is false (a newer engine release) its obligation is vacuous.
 func (r *Run) checkCopyAliasing(P string) {
 	var eng *ssa.Package
 	for _, sp := range r.P.SSA.AllPackages() {
@@ -31,33 +37,72 @@ func (r *Run) checkCopyAliasing(P string) {
 			eng = sp
 		}
 	}
-	why := "[{\"op\":\"copy\",\"from\":\"/a\",\"path\":\"/a/x\"}] — or copy /a→/b/x followed by copy /b→/a/y — passes validation and makes the composer's document cyclic: Apply overflows the stack and kills the process"
+	why := "[{\"op\":\"copy\",\"from\":\"/arr/0\",\"path\":\"/arr/00/b\"}] (or from /a~0 to /a~/b, or copy /a→/b/x followed by copy /b→/a/y) passes validation and makes the composer's document cyclic: Apply overflows the stack and kills the process"
+	whyB := "[{\"op\":\"replace\",\"path\":\"/arr/-2\",\"value\":1}] or a `test` operation without value passes validation and panics inside the engine: ApplyPatches panics instead of returning an error"
 	if eng == nil {
 		r.R.Unk(P+".alias.engine", "engine premise", "github.com/evanphx/json-patch", "-", why, "engine package not loaded")
 		return
 	}
 	aliasing, deep, found := false, false, false
+	negIndex := false
 	for f := range r.P.AllFuncs {
-		if f.Pkg != eng || f.Blocks == nil || f.Name() != "copy" || f.Signature.Recv() == nil {
+		if f.Pkg != eng || f.Blocks == nil {
 			continue
 		}
-		found = true
-		for _, b := range f.Blocks {
-			for _, ins := range b.Instrs {
-				c, ok := ins.(ssa.CallInstruction)
-				if !ok {
-					continue
-				}
-				cc := c.Common()
-				if sc := cc.StaticCallee(); sc != nil && strings.Contains(strings.ToLower(sc.Name()), "deepcopy") {
-					deep = true
-				}
-				if cc.IsInvoke() && cc.Method.Name() == "set" && len(cc.Args) == 2 {
-					for _, root := range valueRoots(cc.Args[1]) {
-						if rc, ok := root.(*ssa.Call); ok && rc.Common().IsInvoke() && rc.Common().Method.Name() == "get" {
-							aliasing = true
+		if f.Name() == "copy" && f.Signature.Recv() != nil {
+			found = true
+			for _, b := range f.Blocks {
+				for _, ins := range b.Instrs {
+					c, ok := ins.(ssa.CallInstruction)
+					if !ok {
+						continue
+					}
+					cc := c.Common()
+					if sc := cc.StaticCallee(); sc != nil && strings.Contains(strings.ToLower(sc.Name()), "deepcopy") {
+						deep = true
+					}
+					if cc.IsInvoke() && cc.Method.Name() == "set" && len(cc.Args) == 2 {
+						for _, root := range valueRoots(cc.Args[1]) {
+							if rc, ok := root.(*ssa.Call); ok && rc.Common().IsInvoke() && rc.Common().Method.Name() == "get" {
+								aliasing = true
+							}
 						}
 					}
+				}
+			}
+		}
+		// premise B: an index derived from strconv.Atoi used without a lower-bound test
+		ff := r.E.Facts(f, core.Ctx{})
+		for _, b := range f.Blocks {
+			for _, ins := range b.Instrs {
+				var idx ssa.Value
+				switch x := ins.(type) {
+				case *ssa.IndexAddr:
+					idx = x.Index
+				case *ssa.Index:
+					idx = x.Index
+				}
+				if idx == nil {
+					continue
+				}
+				fromAtoi := false
+				for _, root := range valueRoots(idx) {
+					if rc, ok := root.(*ssa.Call); ok && rc.Common().StaticCallee() != nil && rc.Common().StaticCallee().String() == "strconv.Atoi" {
+						fromAtoi = true
+					}
+				}
+				if !fromAtoi {
+					continue
+				}
+				it := ff.TB.Of(idx).String()
+				lower := false
+				for _, fc := range ff.At(ins) {
+					if fc.Kind == "cmp" && fc.B.Op == "const" && fc.B.Name == "0" && fc.A.String() == it && (fc.Op == ">=" || fc.Op == ">") {
+						lower = true
+					}
+				}
+				if !lower {
+					negIndex = true
 				}
 			}
 		}
@@ -66,8 +111,10 @@ func (r *Run) checkCopyAliasing(P string) {
 		r.R.Unk(P+".alias.engine", "engine premise", "github.com/evanphx/json-patch.(Patch).copy", "-", why, "the engine's copy implementation was not found: re-derive the premise")
 		return
 	}
-	premise := aliasing && !deep
-	r.R.List("engine premises (derived from the JSON-patch library source)", fmt.Sprintf("(Patch).copy stores the node returned by container.get at the destination without copying it: %v", premise))
+	premiseA := aliasing && !deep
+	r.R.List("engine premises (derived from the JSON-patch library source)",
+		fmt.Sprintf("(Patch).copy stores the node returned by container.get at the destination without copying it: %v", premiseA),
+		fmt.Sprintf("an array index obtained from strconv.Atoi is used without a lower-bound test (a negative index panics): %v", negIndex))
 	n := 0
 	for _, f := range r.P.SubjectFuncs() {
 		ff := r.E.Facts(f, core.Ctx{})
@@ -83,109 +130,133 @@ func (r *Run) checkCopyAliasing(P string) {
 				}
 				n++
 				recv := core.CallArgs(c.Common())[0]
-				sl, low := singleOpSlice(recv)
-				idS := fmt.Sprintf("%s.alias.single.%s", P, core.FuncName(f))
-				r.R.Check(!premise || sl != nil, idS, "sibling agreement (composer ↔ engine): the engine's copy shares nodes, so each Apply call receives exactly one operation (patch[i:i+1]) and the next one starts from re-serialized bytes",
-					core.FuncName(f), r.P.Pos(c.Pos()), why, "one operation per Apply call", "Apply receives "+ff.TB.Of(recv).String()+": several operations are applied to one shared node graph")
-				idD := fmt.Sprintf("%s.alias.descendant.%s", P, core.FuncName(f))
-				if !premise {
-					r.R.Ok(idD, "vacuous: the engine copies deeply", core.FuncName(f), r.P.Pos(c.Pos()), why, "not needed")
-					continue
+				idA := fmt.Sprintf("%s.alias.nocopy.%s", P, core.FuncName(f))
+				ruleA := "sibling agreement (composer ↔ engine) + E6 dual: the engine's copy shares nodes, so no copy operation reaches it — the Apply call is dominated by a loop over the applied patch whose every completing iteration has kind(operation) ≠ \"copy\""
+				if !premiseA {
+					r.R.Ok(idA, "vacuous: the engine copies deeply", core.FuncName(f), r.P.Pos(c.Pos()), why, "not needed")
+				} else {
+					ok, det := r.noCopyLoopBefore(ff, c, recv)
+					r.R.Check(ok, idA, ruleA, core.FuncName(f), r.P.Pos(c.Pos()), why, det, det)
 				}
-				guard := ""
-				if sl != nil {
-					if low == "#low" {
-						low = ff.TB.Of(sl.Low).String()
-					}
-					elem := ff.TB.Of(sl.X).String() + "[" + low + "]"
-					for _, fc := range ff.At(c) {
-						if fc.Kind != "ok" || fc.A == nil || fc.A.Op != "call" || fc.A.Callee == nil || !r.P.IsSubject(fc.A.Callee) {
-							continue
-						}
-						for k, a := range fc.A.Args {
-							if a.String() == elem && r.rejectsCopyIntoDescendant(fc.A.Callee, k) {
-								guard = core.FuncName(fc.A.Callee)
-							}
-						}
-					}
+				idB := fmt.Sprintf("%s.engine.recover.%s", P, core.FuncName(f))
+				ruleB := "E8 pairing: a call into the engine (which can panic on attacker-controlled operations) sits in a function whose deferred closure recovers and assigns the function's error result"
+				if !negIndex {
+					r.R.Ok(idB, "vacuous: no unguarded Atoi-derived index in the engine", core.FuncName(f), r.P.Pos(c.Pos()), whyB, "not needed")
+				} else {
+					ok, det := recoversIntoError(f)
+					r.R.Check(ok, idB, ruleB, core.FuncName(f), r.P.Pos(c.Pos()), whyB, det, det)
 				}
-				r.R.Check(guard != "", idD, "E8 never-before + E2: Apply is reached only after a check of that operation whose every success path has op ≠ \"copy\" or ¬HasPrefix(path, from + \"/\")",
-					core.FuncName(f), r.P.Pos(c.Pos()), why, "guarded by "+guard, "no dominating check that rejects a copy whose destination lies inside its source")
 			}
 		}
 	}
 	r.R.Floor(P+".alias.floor", "instance floor", n, 1, "calls of the JSON-patch engine's Apply in the subject")
 }
 
-// singleOpSlice: v is x[i:i+1] (or x[:1]); returns the slice instruction and the low index term.
-func singleOpSlice(v ssa.Value) (*ssa.Slice, string) {
-	sl, ok := v.(*ssa.Slice)
-	if !ok || sl.High == nil || sl.Max != nil {
-		return nil, ""
-	}
-	if sl.Low == nil {
-		if k, ok := sl.High.(*ssa.Const); ok && k.Value != nil && k.Value.ExactString() == "1" {
-			return sl, "0"
+// noCopyLoopBefore: call c (applying patch value recv) is dominated by a loop
+// over recv, lies outside that loop, and every iteration path that returns to
+// the loop head carries cmp(K(elem of recv, "op") != "copy").
+func (r *Run) noCopyLoopBefore(ff *core.FnFacts, c *ssa.Call, recv ssa.Value) (bool, string) {
+	f := ff.Fn
+	rt := ff.TB.Of(recv).String()
+	for _, head := range allLoopHeads(f) {
+		if !head.Dominates(c.Block()) || blockReaches(ff, c.Block(), head, nil) {
+			continue
 		}
-		return nil, ""
-	}
-	bo, ok := sl.High.(*ssa.BinOp)
-	if !ok || bo.Op != token.ADD {
-		return nil, ""
-	}
-	one := func(v ssa.Value) bool {
-		k, ok := v.(*ssa.Const)
-		return ok && k.Value != nil && k.Value.ExactString() == "1"
-	}
-	if (bo.X == sl.Low && one(bo.Y)) || (bo.Y == sl.Low && one(bo.X)) {
-		return sl, "#low"
-	}
-	return nil, ""
-}
-
-// rejectsCopyIntoDescendant: every success path of g establishes, about its
-// k-th parameter (a patch operation), op ≠ "copy" or ¬HasPrefix(path, from+"/").
-func (r *Run) rejectsCopyIntoDescendant(g *ssa.Function, k int) bool {
-	if len(g.Blocks) == 0 || hasCycle(g) || k >= len(g.Params) {
-		return false
-	}
-	gf := r.E.Facts(g, core.Ctx{})
-	pn := "$" + g.Params[k].Name()
-	about := func(t *core.Term, member string) bool {
-		s := t.String()
-		return strings.Contains(s, pn) && strings.Contains(s, `"`+member+`"`)
-	}
-	paths, complete := enumPaths(gf, 2000)
-	if !complete || len(paths) == 0 {
-		return false
-	}
-	nSucc := 0
-	for _, p := range paths {
-		last := p[len(p)-1]
-		ret := last.Instrs[len(last.Instrs)-1].(*ssa.Return)
-		ev := core.RetOp(ret, len(ret.Results)-1)
-		if ph, isPhi := ev.(*ssa.Phi); isPhi {
-			ev = resolveOnPath(ph, p)
+		paths := loopIterationPaths(ff, head, 2000)
+		nBack, good := 0, true
+		for _, ip := range paths {
+			if ip.Ret != nil {
+				continue
+			}
+			nBack++
+			okPath := false
+			for _, fc := range rawPathFacts(ff, ip.Blocks) {
+				if fc.Kind != "cmp" || fc.Op != "!=" || fc.B.Op != "const" || fc.B.Name != `"copy"` || fc.A.Op != "call" {
+					continue
+				}
+				hasOp, hasElem := false, false
+				for _, a := range fc.A.Args {
+					as := a.String()
+					if as == `"op"` {
+						hasOp = true
+					}
+					if strings.HasPrefix(as, "range:") || strings.HasPrefix(as, rt+"[") {
+						hasElem = true
+					}
+				}
+				if hasOp && hasElem {
+					okPath = true
+				}
+			}
+			if !okPath {
+				good = false
+			}
 		}
-		if c, isC := ev.(*ssa.Const); !isC || c.Value != nil {
-			continue // an error return
+		// the loop must range over recv itself
+		overRecv := false
+		for _, ins := range head.Instrs {
+			_ = ins
 		}
-		nSucc++
-		ok := false
-		for _, fc := range pathFacts(gf, p) {
-			switch {
-			case fc.Kind == "cmp" && fc.Op == "!=" && fc.B.Op == "const" && fc.B.Name == `"copy"` && about(fc.A, "op"):
-				ok = true
-			case fc.Kind == "false" && fc.A.Op == "call" && strings.HasSuffix(fc.A.Name, "strings.HasPrefix") && len(fc.A.Args) == 2 && about(fc.A.Args[0], "path"):
-				pre := fc.A.Args[1]
-				if pre.Op == "bin" && pre.Name == "+" && about(pre.Args[0], "from") && pre.Args[1].Op == "const" && pre.Args[1].Name == `"/"` {
-					ok = true
+		for _, b := range f.Blocks {
+			for _, ins := range b.Instrs {
+				switch x := ins.(type) {
+				case *ssa.Range:
+					if x.X == recv {
+						overRecv = true
+					}
+				case *ssa.IndexAddr:
+					if x.X == recv {
+						overRecv = true
+					}
+				case *ssa.Index:
+					if x.X == recv {
+						overRecv = true
+					}
 				}
 			}
 		}
-		if !ok {
-			return false
+		if good && nBack > 0 && overRecv {
+			return true, fmt.Sprintf("dominated by a loop over the patch with kind ≠ copy on all %d completing iteration paths", nBack)
 		}
 	}
-	return nSucc > 0
+	return false, "Apply receives " + rt + " without a dominating loop that rejects copy operations: a copy reaches the engine"
+}
+
+// recoversIntoError: f defers a closure that calls recover() and stores into an error-typed variable of f.
+func recoversIntoError(f *ssa.Function) (bool, string) {
+	for _, b := range f.Blocks {
+		for _, ins := range b.Instrs {
+			d, ok := ins.(*ssa.Defer)
+			if !ok {
+				continue
+			}
+			var cl *ssa.Function
+			switch v := d.Call.Value.(type) {
+			case *ssa.MakeClosure:
+				cl, _ = v.Fn.(*ssa.Function)
+			case *ssa.Function:
+				cl = v
+			}
+			if cl == nil {
+				continue
+			}
+			rec, sets := false, false
+			for _, cb := range cl.Blocks {
+				for _, ci := range cb.Instrs {
+					if c, ok := ci.(*ssa.Call); ok && isBuiltin(c, "recover") {
+						rec = true
+					}
+					if st, ok := ci.(*ssa.Store); ok && isErrorTypeV(st.Val) {
+						if _, isFV := st.Addr.(*ssa.FreeVar); isFV {
+							sets = true
+						}
+					}
+				}
+			}
+			if rec && sets {
+				return true, "deferred closure recovers and assigns the error result"
+			}
+		}
+	}
+	return false, "no deferred recover that assigns the error result: a panic inside the engine propagates to the caller"
 }
